@@ -379,7 +379,7 @@ def fieldOptional (o : OObs) (memberOpt : Loc → Bool) (k : Nat) (m : Loc) : Bo
 
 /-- `ZodObject.validateObject` (types/object.go): every shape field present and accepted by its member, or absent and
     optional (`isFieldOptional`); unknown keys: strict → rejected, strip → dropped, passthrough → kept, after validation by
-    the catchall when there is one (the catchall is consulted in passthrough mode only).  `none` = rejected, `some ks` =
+    the catchall when there is one (since /repo 507cd5d the catchall validates unknown keys in strip mode too; they are still dropped).  `none` = rejected, `some ks` =
     accepted with output keys `ks`. -/
 def objParse (o : OObs) (memberOk : Loc → Nat → Bool) (memberOpt : Loc → Bool) (inp : ObjInput) : Option (List Nat) :=
   let sh := o.base.shape.getD []
@@ -392,7 +392,11 @@ def objParse (o : OObs) (memberOk : Loc → Nat → Bool) (memberOpt : Loc → B
     match o.v.catchall with
     | some c => if unknown.all (fun k => memberOk c k) then some (known ++ unknown) else none
     | none => some (known ++ unknown)
-  else some known
+  else
+    -- strip: unknown keys are omitted from the result; since /repo 507cd5d a catchall still validates them
+    match o.v.catchall with
+    | some c => if unknown.all (fun k => memberOk c k) then some known else none
+    | none => some known
 
 /-- object part of the JSON Schema (jsonschema/to.go `convertObjectFromShape`): properties, required = the fields the OBJECT
     says may not be absent (since /repo 792c820 the converter asks `IsFieldOptional`, i.e. `fieldOptional`: RequiredKeys, then
